@@ -32,7 +32,7 @@ func init() {
 	core.Register(&core.Rule{
 		ID:    "R15.3",
 		Title: "the context-path index is evaluated only in range",
-		Text: "Every index into a string in formatQueryUrl is the right operand of `len(s) == i || s[i] …` nested under `idx >= 0 && …` where idx is the result of strings.Index on the same string, so it is in range by strings.Index's postcondition; dropping either test is reported.",
+		Text:  "Every index into a string in formatQueryUrl is the right operand of `len(s) == i || s[i] …` nested under `idx >= 0 && …` where idx is the result of strings.Index / strings.LastIndex on the same string, so it is in range by their postcondition; dropping either test is reported.",
 		Props: []string{"C15", "C04"},
 		Floor: map[string]int{"v2": 1, "root": 1},
 		Run:   runR153,
@@ -54,7 +54,10 @@ func runR151(c *core.Ctx) {
 		assign *ast.AssignStmt
 	}
 	srcs := []*src{
-		{name: "ResourcePath()", match: func(call *ast.CallExpr) bool { cf := core.Callee(inf, call); return cf != nil && cf.Name() == "ResourcePath" }},
+		{name: "ResourcePath()", match: func(call *ast.CallExpr) bool {
+			cf := core.Callee(inf, call)
+			return cf != nil && cf.Name() == "ResourcePath"
+		}},
 		{name: "EncodeQueryParams()", match: func(call *ast.CallExpr) bool {
 			cf := core.Callee(inf, call)
 			return cf != nil && cf.Name() == "EncodeQueryParams"
@@ -275,7 +278,7 @@ func runR153(c *core.Ctx) {
 			}
 		}
 		c.Check(ok1 && ok2, rel, "(*Client).formatQueryUrl", fmt.Sprintf("string index %s is in range", core.ExprString(ix)), ix.Pos(), "guarded by idx >= 0 and the length test",
-			fmt.Sprintf("length test on the left of ||: %v; idx >= 0 (from strings.Index on the same string) on the left of &&: %v", ok1, ok2))
+			fmt.Sprintf("length test on the left of ||: %v; idx >= 0 (from strings.Index/LastIndex on the same string) on the left of &&: %v", ok1, ok2))
 		return true
 	})
 	if n == 0 {
@@ -310,7 +313,7 @@ func fromStringsIndex(inf *types.Info, fd *ast.FuncDecl, idx types.Object, s ast
 		if !ok || len(as.Rhs) != 1 || core.ObjOf(inf, as.Lhs[0]) != idx {
 			return true
 		}
-		if call, ok := core.Unparen(as.Rhs[0]).(*ast.CallExpr); ok && core.IsFunc(core.Callee(inf, call), "strings", "Index") && core.SameExpr(inf, call.Args[0], s) {
+		if call, ok := core.Unparen(as.Rhs[0]).(*ast.CallExpr); ok && (core.IsFunc(core.Callee(inf, call), "strings", "Index") || core.IsFunc(core.Callee(inf, call), "strings", "LastIndex")) && core.SameExpr(inf, call.Args[0], s) {
 			found = true
 		}
 		return true
